@@ -223,6 +223,7 @@ def generic(prop, facets, rule, configs_fn, args_tier=None, seeds=(0,), mode='rr
     if prop in SEM_INV:
         cfgs = [sem_config(prop, tier)] + cfgs
     res = run_generated(cfgs, 'harness.judge_compose.judge', p, seeds=seeds, mode=mode)
+    swept = codepoint_sweep(tier, res) if prop == 'C01' else 0
     st = res.agg.stats
     cov = {'states': res.states, 'transitions': res.transitions,
            'traces_validated_against_impl': st.get('cases', 0),
@@ -231,7 +232,7 @@ def generic(prop, facets, rule, configs_fn, args_tier=None, seeds=(0,), mode='rr
            'facet_counts': {k[6:]: v for k, v in st.items() if k.startswith('facet:')},
            'facets_judged': sorted(facets), 'hash_seeds': list(seeds),
            'outcomes': {k[8:]: v for k, v in st.items() if k.startswith('outcome:')},
-           'oracle_calibrated_cases': st.get('calibrated', 0),
+           'oracle_calibrated_cases': st.get('calibrated', 0), 'codepoints_swept': swept,
            'exhaustive': True}
     return report(prop, tier, seed, res.agg.failures, cov, time.time() - t0, ASSUME + list(extra_assume),
                   res.model_violations)
@@ -239,6 +240,22 @@ def generic(prop, facets, rule, configs_fn, args_tier=None, seeds=(0,), mode='rr
 
 RULE = 'every distinct state of the builder state machine (one surface term with its intended outcome) is replayed ' \
        'against /repo in every spelling of its top operator; '
+
+
+def codepoint_sweep(tier, res):
+    """Every code point (all 1 114 112 of them, in both tiers) as a one-character literal."""
+    from .farm import Farm
+    farm = Farm('harness.judge_sweep.judge', {}, seeds=(0,), mode='rr')
+    chunks = [(lo, min(lo + 4096, 0x3000), 1) for lo in range(0, 0x3000, 4096)]
+    step = 1
+    chunks += [(lo, min(lo + 16384 * step, 0x110000), step) for lo in range(0x3000, 0x110000, 16384 * step)]
+    for c in chunks:
+        farm.submit([c])
+    n = 0
+    for _, r in farm.close():
+        res.agg.add(r)
+        n += r['stats'].get('cases', 0)
+    return n
 
 
 def check_C01(tier=None):
